@@ -183,7 +183,14 @@ func runC06(c *Ctx) {
 				continue
 			}
 			if lf.Val != ssa.Value(check) {
-				ok = false
+				// nil written out on the path where the check's result is known to be nil
+				isNil, known := f.knownNilIn(lf.Facts, check)
+				if !known {
+					isNil, known = f.KnownNil(r.Block(), check)
+				}
+				if !(isNilConst(lf.Val) && known && isNil) {
+					ok = false
+				}
 			}
 		}
 		c.Check(ok, "R1.chain", "Attest|success only if the signature check succeeded", w.Pos(r.Pos()), "the only possibly-nil result is the check's", "Attest can return nil without the signature check having returned nil")
